@@ -727,6 +727,11 @@ class Circuit:
                 for blk in started_blocks.intersection(self.getblocks(addons.AddonPersistence)):
                     blk.save_persistent_state()
                 self.persistent_dict['edzed-stop-time'] = time.time()
+            elif not start_ok:
+                # the persistent data must not be touched if the start has failed, not even
+                # by events that the blocks may exchange during the cleanup
+                for blk in self.getblocks(addons.AddonPersistence):
+                    blk.persistent = False
             await self._stop_sblocks(started_blocks)
         assert self._error is not None
         raise self._error
